@@ -56,6 +56,14 @@ def mk_env(rng):
     # what an earlier build left behind at the artefact paths
     if rng.chance(1, 3):
         env["dirty"] = {"kind": rng.choice(["longer", "shorter", "other_program", "garbage"]), "fill": rng.hexbytes(8)}
+    # crash and restart: the failing command was started once before and killed at a planned call (while writing or loading
+    # bytecode, in the middle of the program's output, in the middle of the report); then it is started again.  A stream of
+    # its own, so that the other choices stay what they were
+    sub = core.Rng(core.derive(int(env["seed"][:16], 16), "crash"))
+    if sub.chance(1, 5):
+        call, pat, hi = sub.weighted([(("write", "*.mmm", 10), 3), (("read", "*.mmm", 8), 2), (("open", "*.mmm", 5), 1), (("write", "<stdout>", 6), 2),
+                                      (("write", "<stderr>", 6), 2)])
+        env["crash"] = {"id": "crash", "call": call, "pat": pat, "nth": str(min(sub.range(1, hi), sub.range(1, hi))), "act": sub.choice(["kill", "killafter"])}
     return env
 
 
@@ -167,7 +175,12 @@ def run_case(case):
         import pipeline
         pipeline.place_dirty(world, env, pipeline.module_artefacts(files, lpre + "main.ms"))
     procs = []
+    crash = [env["crash"]] if env.get("crash") else None
     if env["mode"] == "run":
+        if crash:
+            a = core.run_cmd(world, ["run", pre + "main.ms"] + ([] if verbose else ["-q"]) + list(env.get("flags") or []), plan={"seed": plan["seed"], "rules": plan["rules"] + crash},
+                             gc=env["gc"], streams=env["streams"], extra_env=xenv, gone_cwd=gone)
+            procs.append(a)
         p = core.run_cmd(world, ["run", pre + "main.ms"] + ([] if verbose else ["-q"]) + list(env.get("flags") or []), plan=plan, gc=env["gc"],
                          streams=env["streams"], extra_env=xenv, gone_cwd=gone)
         procs.append(p)
@@ -177,10 +190,14 @@ def run_case(case):
         if c["rc"] != 0:
             p = c
         else:
+            if crash:
+                a = core.run_cmd(world, ["execute", pre + "main.mmm"], plan={"seed": env["seed2"], "rules": env["rules"] + crash}, gc=env["gc"], streams=env["streams"],
+                                 extra_env=xenv, gone_cwd=gone)
+                procs.append(a)
             p = core.run_cmd(world, ["execute", pre + "main.mmm"], plan={"seed": env["seed2"], "rules": env["rules"]}, gc=env["gc"], streams=env["streams"],
                              extra_env=xenv, gone_cwd=gone)
             procs.append(p)
-    st = core.stats_of(procs, [env["rules"]] * len(procs))
+    st = core.stats_of(procs, [env["rules"] + (crash or [])] * len(procs))
     spec = case["gen"]["spec"]
     st["hash_seeds"] = [env["seed"], env["seed2"]]
     st["shape"] = core.shape_hash(spec, env["mode"], env["streams"], [(x["pat"], x["act"].split(":")[0]) for x in env["rules"]], bool(env["gc"]),
@@ -196,6 +213,8 @@ def run_case(case):
         pr["project_path_contains_hash_or_space"] = 1
     if env.get("dirty"):
         pr["stale_artefacts_present"] = 1
+    if crash and any(q["rc"] == 137 for q in procs[:-1]):
+        pr["crashed_and_restarted"] = 1
     st["probes"] = pr
     out = core.text(p["out"])
     if verbose and env["mode"] == "run":
@@ -293,7 +312,7 @@ def shrink(case):
         c = copy.deepcopy(case)
         c["env"]["streams"] = "pipes"
         yield c
-    for key in ("subdir", "dirty", "flags", "vars", "hard", "start"):
+    for key in ("subdir", "dirty", "flags", "vars", "hard", "start", "crash"):
         if env.get(key):
             c = copy.deepcopy(case)
             c["env"][key] = None
